@@ -1,4 +1,8 @@
 import XalanModel.Containers.VectorProofs
+import XalanModel.Containers.XMapProofs
+import XalanModel.Containers.DequeProofs
+import XalanModel.Containers.XList
+import XalanModel.Containers.DOMString
 /-!
 # C20 — Xalan's containers behave like their standard models
 
@@ -152,6 +156,295 @@ example :
     specRun [VOp.push 1, .push 2, .push 3, .reserve 10, .insertRange 1 [7, 8], .insertN 4 3 9,
              .insertOne 0 5, .erase 2 4, .resize 3 0, .copyAssign ⟨[4, 4, 4, 4], 4⟩, .pop]
       (Vec.empty : Vec Nat).items = some [4, 4, 4] ∧ (Vec.empty : Vec Nat).Inv := by
+  decide
+
+/-! ## Vector: value arguments that alias an element of the vector -/
+
+/-- After the repair (`proposed/C20-vector-alias.diff`) `insert(pos, n, v[i])` is `std::vector`'s
+`insert` of a copy of the original `v[i]`. -/
+theorem vector_insertNSelf_refines (v : Vec α) (pos n i : Nat) (x : α) (h : v.Inv) (hp : pos ≤ v.items.length)
+    (hi : v.items[i]? = some x) :
+    ∃ v', v.insertNSelf pos n i = some v' ∧ v'.items = v.items.take pos ++ List.replicate n x ++ v.items.drop pos ∧ v'.Inv := by
+  simp only [Vec.insertNSelf, hi]
+  exact Vec.insertN_refines v pos n x h hp
+
+/-- … and `resize(n, v[i])` likewise. -/
+theorem vector_resizeSelf_refines (v : Vec α) (n i : Nat) (x : α) (h : v.Inv) (hi : v.items[i]? = some x) :
+    ∃ v', v.resizeSelf n i = some v' ∧ v'.items = v.items.take n ++ List.replicate (n - v.items.length) x ∧ v'.Inv := by
+  simp only [Vec.resizeSelf, hi]
+  exact Vec.resize_refines v n x h
+
+/-- The **unrepaired** code violates the property: `{1,2,3,4}` with capacity 8,
+`insert(begin(), 1, v[2])` yields `2 1 2 3 4` (std: `3 1 2 3 4`); appending `v[0]` three times to a
+full `{1,2}` reads freed memory.  Replayed on the real code by the corpus of checks/c20.py. -/
+theorem vector_alias_as_written_counterexample :
+    (Vec.insertNAliasAsWritten (⟨[1, 2, 3, 4], 8⟩ : Vec Nat) 0 1 2).map (·.items) = some [2, 1, 2, 3, 4] ∧
+    (Vec.insertNSelf (⟨[1, 2, 3, 4], 8⟩ : Vec Nat) 0 1 2).map (·.items) = some [3, 1, 2, 3, 4] ∧
+    Vec.insertNAliasAsWritten (⟨[1, 2], 2⟩ : Vec Nat) 2 3 0 = none := by
+  decide
+
+/-! ## XalanMap / XalanSet: refinement to an insertion-ordered association list -/
+
+inductive MOp (κ ν : Type) where
+  | insert (k : κ) (v : ν)
+  | find (k : κ)
+  | erase (k : κ)
+  | clear
+deriving Repr
+
+/-- observable result of a map operation -/
+inductive MOut (ν : Type) where
+  | unit
+  | found (v : Option ν)
+  | count (n : Nat)
+deriving Repr, DecidableEq
+
+/-- the contract on an insertion-ordered association list (`std::map`/`unordered_map` results plus a
+defined iteration order: order of first insertion, re-insertion after erase goes to the end) -/
+def mapSpecStep {κ ν : Type} [DecidableEq κ] (l : List (κ × ν)) : MOp κ ν → List (κ × ν) × MOut ν
+  | .insert k v => (match l.lookup k with | some _ => l | none => l ++ [(k, v)], .unit)
+  | .find k => (l, .found (l.lookup k))
+  | .erase k => (l.filter (fun p => p.1 != k), .count (if (l.lookup k).isSome then 1 else 0))
+  | .clear => ([], .unit)
+
+/-- the XalanMap code paths -/
+def XMap.stepOp {κ ν : Type} [DecidableEq κ] (hash : κ → Nat) (m : XMap κ ν) : MOp κ ν → Option (XMap κ ν × MOut ν)
+  | .insert k v => (XMap.insert hash m k v).map (·, .unit)
+  | .find k => (XMap.find hash m k).map fun r => (m, .found (r.map (·.val)))
+  | .erase k => (XMap.erase hash m k).map fun (m', c) => (m', .count c)
+  | .clear => (XMap.clear m).map (·, .unit)
+
+def mapSpecRun {κ ν : Type} [DecidableEq κ] : List (MOp κ ν) → List (κ × ν) → List (κ × ν) × List (MOut ν)
+  | [], l => (l, [])
+  | op :: ops, l =>
+    let (l1, o) := mapSpecStep l op
+    let (l2, os) := mapSpecRun ops l1
+    (l2, o :: os)
+
+def XMap.runOps {κ ν : Type} [DecidableEq κ] (hash : κ → Nat) :
+    List (MOp κ ν) → XMap κ ν → Option (XMap κ ν × List (MOut ν))
+  | [], m => some (m, [])
+  | op :: ops, m =>
+    (XMap.stepOp hash m op).bind fun (m1, o) => (XMap.runOps hash ops m1).map fun (m2, os) => (m2, o :: os)
+
+/-- One operation: no undefined behaviour (zero modulus, dangling bucket pointer, empty free list),
+the invariant again, the specified association list in iteration order and the specified result —
+across bucket creation, rehash, recycling of erased entries through stale bucket pointers and
+erase-threshold compaction. -/
+theorem map_step_refines {κ ν : Type} [DecidableEq κ] (hash : κ → Nat) (m : XMap κ ν) (op : MOp κ ν)
+    (h : XMap.Inv hash m) :
+    ∃ m' o, XMap.stepOp hash m op = some (m', o) ∧ XMap.Inv hash m' ∧
+      (m'.toList, o) = mapSpecStep m.toList op := by
+  cases op with
+  | insert k v =>
+    obtain ⟨m', e, i, t⟩ := XMap.insert_spec h k v
+    refine ⟨m', .unit, by simp [XMap.stepOp, e], i, ?_⟩
+    simp only [mapSpecStep, t]
+    cases List.lookup k m.toList <;> rfl
+  | find k =>
+    have hf := XMap.find_lookup (hash := hash) h k
+    cases hr : XMap.find hash m k with
+    | none => simp [hr] at hf
+    | some r =>
+      simp only [hr, Option.map_some, Option.some.injEq] at hf
+      exact ⟨m, .found (r.map (·.val)), by simp [XMap.stepOp, hr], h, by simp only [mapSpecStep, hf]⟩
+  | erase k =>
+    obtain ⟨m', c, e, i, t, hc⟩ := XMap.erase_spec h k
+    exact ⟨m', .count c, by simp [XMap.stepOp, e], i, by simp [mapSpecStep, t, hc]⟩
+  | clear =>
+    obtain ⟨m', e, i, t⟩ := XMap.clear_spec h
+    exact ⟨m', .unit, by simp [XMap.stepOp, e], i, by simp [mapSpecStep, XMap.toList, t]⟩
+
+/-- **C20 (map, set).** Every history of insert / find / erase / clear from any state satisfying the
+invariant (in particular from a freshly constructed map, `map_new_inv`).
+`_partial`: `operator[]`-assignment, copy construction / `operator=` and `swap` are in the model and in
+the correspondence run but not in this alphabet (`map_swap_inv` covers the invariant under `swap`). -/
+theorem map_refines_partial {κ ν : Type} [DecidableEq κ] (hash : κ → Nat) (ops : List (MOp κ ν)) (m : XMap κ ν)
+    (h : XMap.Inv hash m) :
+    ∃ m' os, XMap.runOps hash ops m = some (m', os) ∧ XMap.Inv hash m' ∧
+      (m'.toList, os) = mapSpecRun ops m.toList := by
+  induction ops generalizing m with
+  | nil => exact ⟨m, [], rfl, h, rfl⟩
+  | cons op ops ih =>
+    obtain ⟨m1, o, e1, i1, s1⟩ := map_step_refines hash m op h
+    obtain ⟨m2, os, e2, i2, s2⟩ := ih m1 i1
+    refine ⟨m2, o :: os, by simp [XMap.runOps, e1, e2], i2, ?_⟩
+    simp only [mapSpecRun, ← s1, ← s2]
+
+/-- a freshly constructed map (any positive `minBuckets`, any load factor with a positive denominator)
+satisfies the invariant -/
+theorem map_new_inv {κ ν : Type} [DecidableEq κ] (hash : κ → Nat) (lfNum lfDen minB thr : Nat)
+    (h1 : 0 < minB) (h2 : 0 < lfDen) : XMap.Inv hash (XMap.new lfNum lfDen minB thr : XMap κ ν) :=
+  XMap.new_inv lfNum lfDen minB thr h1 h2
+
+/-- `swap` keeps the invariant on both sides (it exchanges everything the invariant speaks about) -/
+theorem map_swap_inv {κ ν : Type} [DecidableEq κ] (hash : κ → Nat) (a b : XMap κ ν)
+    (ha : XMap.Inv hash a) (hb : XMap.Inv hash b) :
+    XMap.Inv hash (XMap.swapInto a b) ∧ XMap.Inv hash (XMap.swapInto b a) ∧
+      (XMap.swapInto a b).toList = b.toList ∧ (XMap.swapInto b a).toList = a.toList :=
+  ⟨XMap.swapInto_inv ha hb, XMap.swapInto_inv hb ha, rfl, rfl⟩
+
+/-- non-vacuity: with 1 initial bucket, erase threshold 2 and an everything-collides hash, this history
+goes through bucket creation, two rehashes, a stale pointer, recycling and a compaction. -/
+example :
+    (XMap.runOps (fun _ : Nat => 0)
+      [MOp.insert 1 10, .insert 2 20, .insert 3 30, .insert 4 40, .erase 2, .insert 5 50, .find 5, .erase 1, .erase 9,
+       .erase 3, .insert 2 21, .find 2, .clear, .insert 6 60]
+      (XMap.new 3 4 1 2 : XMap Nat Nat)).map (fun r => (r.1.toList, r.1.buckets.length, r.1.free.length)) =
+      some ([(6, 60)], 4, 3) := by
+  decide
+
+/-! ## XalanDeque: refinement to `List` -/
+
+inductive DOp (α : Type) where
+  | push (x : α)
+  | pop
+  | resize (n : Nat) (x : α)
+  | clear
+  | assign (xs : List α)      -- `operator=` from a deque holding `xs`
+deriving Repr
+
+def deqSpecStep (l : List α) : DOp α → Option (List α)
+  | .push x => some (l ++ [x])
+  | .pop => if l = [] then none else some l.dropLast
+  | .resize n x => some (l.take n ++ List.replicate (n - l.length) x)
+  | .clear => some []
+  | .assign xs => some xs
+
+def Deq.stepOp (d : Deq α) : DOp α → Option (Deq α)
+  | .push x => some (d.pushBack x)
+  | .pop => d.popBack
+  | .resize n x => d.resize n x
+  | .clear => some d.clear
+  | .assign xs => some (Deq.pushAll xs d.clear)
+
+def deqSpecRun : List (DOp α) → List α → Option (List α)
+  | [], l => some l
+  | op :: ops, l => (deqSpecStep l op).bind (deqSpecRun ops)
+
+def Deq.runOps : List (DOp α) → Deq α → Option (Deq α)
+  | [], d => some d
+  | op :: ops, d => (Deq.stepOp d op).bind (Deq.runOps ops)
+
+theorem deque_step_refines (d : Deq α) (op : DOp α) (h : d.Inv) (l' : List α) (hs : deqSpecStep d.toList op = some l') :
+    ∃ d', Deq.stepOp d op = some d' ∧ d'.Inv ∧ d'.toList = l' := by
+  cases op with
+  | push x =>
+    simp only [deqSpecStep, Option.some.injEq] at hs; subst hs
+    exact ⟨_, rfl, (Deq.pushBack_refines d x h).1, (Deq.pushBack_refines d x h).2.1⟩
+  | pop =>
+    simp only [deqSpecStep] at hs
+    split at hs
+    · cases hs
+    · rename_i hne; simp only [Option.some.injEq] at hs; subst hs
+      obtain ⟨d', e, i, t, _⟩ := Deq.popBack_refines d h hne
+      exact ⟨d', e, i, t⟩
+  | resize n x =>
+    simp only [deqSpecStep, Option.some.injEq] at hs; subst hs
+    exact Deq.resize_refines d n x h
+  | clear =>
+    simp only [deqSpecStep, Option.some.injEq] at hs; subst hs
+    exact ⟨_, rfl, (Deq.clear_refines d h).1, rfl⟩
+  | assign xs =>
+    simp only [deqSpecStep, Option.some.injEq] at hs; subst hs
+    obtain ⟨i, t, _⟩ := Deq.pushAll_refines xs d.clear (Deq.clear_refines d h).1
+    exact ⟨_, rfl, i, by rw [t]; rfl⟩
+
+/-- **C20 (deque).** Every history of push_back / pop_back / resize / clear / operator= within the
+`std::deque` preconditions: no access outside a block, the block-index invariant, the specified
+element sequence (with the repaired `resize`). -/
+theorem deque_refines (ops : List (DOp α)) (d : Deq α) (h : d.Inv) (l' : List α)
+    (hs : deqSpecRun ops d.toList = some l') :
+    ∃ d', Deq.runOps ops d = some d' ∧ d'.Inv ∧ d'.toList = l' := by
+  induction ops generalizing d with
+  | nil => simp only [deqSpecRun, Option.some.injEq] at hs; exact ⟨d, rfl, h, hs⟩
+  | cons op ops ih =>
+    simp only [deqSpecRun] at hs
+    cases hst : deqSpecStep d.toList op with
+    | none => simp [hst] at hs
+    | some l1 =>
+      simp only [hst, Option.bind_some] at hs
+      obtain ⟨d1, e1, i1, t1⟩ := deque_step_refines d op h l1 hst
+      obtain ⟨d2, e2, i2, t2⟩ := ih d1 i1 (by rw [t1]; exact hs)
+      exact ⟨d2, by simp [Deq.runOps, e1, e2], i2, t2⟩
+
+/-- what the observers deliver under the invariant: `size()`, `operator[]` (block / offset
+arithmetic), `back()` -/
+theorem deque_observers (d : Deq α) (h : d.Inv) :
+    d.size = d.toList.length ∧ (∀ i, d.get i = d.toList[i]?) ∧ d.back = d.toList.getLast? :=
+  ⟨Deq.size_eq d h, Deq.get_eq d h, Deq.back_eq d h⟩
+
+example : (Deq.create 2 0 (0 : Nat)).Inv ∧
+    deqSpecRun [DOp.push 1, .push 2, .push 3, .pop, .resize 5 0, .assign [7, 8, 9], .resize 1 0] (Deq.create 2 0 (0 : Nat)).toList
+      = some [7] :=
+  ⟨Deq.inv_nil 2 0 (by decide), by decide⟩
+
+/-- The **unrepaired** `resize` loops re-read `size()`: growing an empty deque to 4 stops at 2,
+shrinking 8 elements to 0 stops at 4 (DESIGN §6 item 1; replayed by the corpus of checks/c20.py). -/
+theorem deque_resize_as_written_counterexample :
+    ((Deq.create 10 0 (0 : Nat)).resizeAsWritten 4 0).map (·.toList.length) = some 2 ∧
+    ((Deq.create 10 0 (0 : Nat)).resize 4 0).map (·.toList.length) = some 4 ∧
+    ((Deq.create 3 8 (0 : Nat)).resizeAsWritten 0 0).map (·.toList.length) = some 4 := by
+  decide
+
+/-! ## XalanList -/
+
+/-- `constructNode` inserts before the position, takes the node from the free list when there is
+one (LIFO) and allocates otherwise. -/
+theorem list_constructNode_refines (l : XL α) (next : Nat) (x : α) (pos : LPos) (i : Nat)
+    (hi : l.touch.indexOf pos = some i) :
+    ∃ l' next' id, l.constructNode next x pos = some (l', next', id) ∧
+      l'.toList = l.toList.take i ++ [x] ++ l.toList.drop i ∧
+      (match l.free with
+        | f :: rest => id = f ∧ l'.free = rest ∧ next' = next
+        | [] => id = next ∧ l'.free = [] ∧ next' = next + 1) ∧
+      l'.head = true := by
+  cases hf : l.free with
+  | nil =>
+    refine ⟨{ l.touch with live := l.live.take i ++ [(next, x)] ++ l.live.drop i }, next + 1, next, ?_, ?_,
+      ⟨rfl, hf, rfl⟩, rfl⟩
+    · simp only [XL.constructNode, hi, Option.map_some]
+      have : l.touch.free = [] := hf
+      simp only [this]; rfl
+    · simp [XL.toList, List.map_take, List.map_drop]
+  | cons f rest =>
+    refine ⟨{ l.touch with live := l.live.take i ++ [(f, x)] ++ l.live.drop i, free := rest }, next, f, ?_, ?_,
+      ⟨rfl, rfl, rfl⟩, rfl⟩
+    · simp only [XL.constructNode, hi, Option.map_some]
+      have : l.touch.free = f :: rest := hf
+      simp only [this]; rfl
+    · simp [XL.toList, List.map_take, List.map_drop]
+
+/-- `erase(pos)` removes exactly that node and pushes it on the free list. -/
+theorem list_erase_refines (l : XL α) (id i : Nat) (hi : l.touch.indexOf (.node id) = some i) :
+    ∃ l', l.erase (.node id) = some l' ∧ l'.live = l.live.eraseIdx i ∧ l'.free = id :: l.free := by
+  unfold XL.erase
+  simp only [hi, Option.map_some]
+  exact ⟨_, rfl, rfl, rfl⟩
+
+/-! ## XalanDOMString -/
+
+/-- The **unrepaired** `resize` leaves the old terminator inside the string: `"ab".resize(5,'x')`
+is `61 62 00 78 78`; the repaired one gives `61 62 78 78 78` (DESIGN §6 item 2). -/
+theorem domstring_resize_as_written_counterexample :
+    ((DStr.mk ⟨[0x61, 0x62, 0], 3⟩ 2).resizeAsWritten 5 0x78).map (·.chars) = some [0x61, 0x62, 0, 0x78, 0x78] ∧
+    ((DStr.mk ⟨[0x61, 0x62, 0], 3⟩ 2).resize 5 0x78).map (·.chars) = some [0x61, 0x62, 0x78, 0x78, 0x78] ∧
+    ((DStr.mk ⟨[0], 1⟩ 0).resizeAsWritten 3 7).map (·.chars) = some [0, 7, 7] := by
+  decide
+
+/-- The **unrepaired** `substr(dst, 1, npos)` copies the terminator into the result (and reads past
+the buffer for positions ≥ 2); the repaired one yields the tail. -/
+theorem domstring_substr_as_written_counterexample :
+    ((DStr.mk ⟨[1, 2, 3, 4, 0], 5⟩ 4).substrIntoAsWritten {} 1 none).map (·.chars) = some [2, 3, 4, 0] ∧
+    ((DStr.mk ⟨[1, 2, 3, 4, 0], 5⟩ 4).substrInto {} 1 none).map (·.chars) = some [2, 3, 4] ∧
+    (DStr.mk ⟨[1, 2, 3, 4, 0], 5⟩ 4).substrIntoAsWritten {} 2 none = none := by
+  decide
+
+/-- The **unrepaired** `append(src, pos, npos)` on an allocated buffer adds `npos` to `m_size`. -/
+theorem domstring_append_npos_as_written_counterexample :
+    ((DStr.mk ⟨[7, 0], 2⟩ 1).appendSubAsWritten (DStr.mk ⟨[1, 2, 3, 4, 0], 5⟩ 4) 1 none).map (·.size) = some 0 ∧
+    ((DStr.mk ⟨[7, 0], 2⟩ 1).appendSub (DStr.mk ⟨[1, 2, 3, 4, 0], 5⟩ 4) 1 none).map (fun s => (s.size, s.chars)) =
+      some (4, [7, 2, 3, 4]) := by
   decide
 
 end XalanModel.Props.C20
